@@ -25,7 +25,10 @@ from .. import normalize as NZ
 from ..facts import Facts as _Facts
 from ..dataflow import Slicer as _Slicer
 
-COMBINATOR = re.compile(r'^(?:std|core)::(option::Option|result::Result)::<.*>::(map|and_then|and|map_or|map_or_else|unwrap_or_else|or_else)$')
+COMBINATOR = re.compile(r'^(?:std|core)::(option::Option|result::Result)::<.*>::(map|and_then|and|map_or|map_or_else|unwrap_or_else|or_else|ok_or|ok_or_else)$')
+# crate helpers whose contract is decided at the call site (membership test of an id, Err when undefined): written out at every call,
+# so that the helper call and its body pasted in place look the same ("existing helper inlined / reused")
+INLINED_HELPERS = ('instance::as_variable_id', 'instance::as_constraint_id')
 _OK0 = [{'dc': 'Ok'}, {'f': '0', 'of': 'std::result::Result::Ok'}]
 _ERR0 = [{'dc': 'Err'}, {'f': '0', 'of': 'std::result::Result::Err'}]
 
@@ -48,12 +51,18 @@ class CombinatorOpener:
 
     def open(self, d):
         if d.get('kind') == 'promoted': return d
-        if not any(b['term']['k'] == 'call' and COMBINATOR.match(T.strip_generics_tail(b['term'].get('r') or b['term'].get('f') or '')) for b in d['blocks']): return d
+        if not any(b['term']['k'] == 'call' and (COMBINATOR.match(T.strip_generics_tail(b['term'].get('r') or b['term'].get('f') or '')) or self._helper(b['term'])) for b in d['blocks']): return d
         rw = NZ.Rewriter(d)
         rw.promoted_of = lambda v, callee: v if v in self.F.bodies else (('%s::promoted[%s]' % (callee, re.search(r'::promoted\[(\d+)\]$', v).group(1))) if re.search(r'::promoted\[(\d+)\]$', v) else v)
         for _ in range(60):
             if not self._one(rw): break
         return rw.d if rw.changed else d
+
+    def _helper(self, t):
+        for key in ('rp', 'fp', 'r', 'f'):
+            nm = t.get(key)
+            if nm and any(nm == h or nm.endswith('::' + h) for h in INLINED_HELPERS) and nm in self.F.bodies and self.F.bodies[nm].kind == 'fn': return nm
+        return None
 
     def _callable(self, rw, op):
         """('closure', body dict, captures, name) | ('fn', const operand) | None"""
@@ -88,7 +97,15 @@ class CombinatorOpener:
             t = b['term']
             if b['cleanup'] or t['k'] != 'call' or t.get('c08_opened') or t['t'] < 0: continue
             m = COMBINATOR.match(T.strip_generics_tail(t.get('r') or t.get('f') or ''))
-            if not m: continue
+            if not m:
+                hn = self._helper(t)
+                if hn is not None and not t.get('synthetic'):
+                    t['c08_opened'] = True
+                    cd = self.body(hn)
+                    if cd is not None and cd['argc'] == len(t['args']) and len(cd['blocks']) <= 400:
+                        rw.goto(bi, rw.splice(cd, t['args'], t['dst'], t['t'], t.get('span')))
+                        return True
+                continue
             t['c08_opened'] = True
             try:
                 if self._combinator(rw, bi, t, 'Option' if 'option' in m.group(1) else 'Result', m.group(2)): return True
@@ -101,8 +118,9 @@ class CombinatorOpener:
         dst = t['dst']; after = t['t']; args = list(t['args'])
         o = args[0]
         if o['k'] not in ('copy', 'move'): return False
-        fpos = {'map': [1], 'and_then': [1], 'and': [], 'map_or': [2], 'map_or_else': [1, 2], 'unwrap_or_else': [1], 'or_else': [1]}[item]
-        if item == 'and' and len(args) != 2: return False
+        fpos = {'map': [1], 'and_then': [1], 'and': [], 'map_or': [2], 'map_or_else': [1, 2], 'unwrap_or_else': [1], 'or_else': [1], 'ok_or': [], 'ok_or_else': [1]}[item]
+        if item in ('and', 'ok_or') and len(args) != 2: return False
+        if item in ('ok_or', 'ok_or_else') and kind != 'Option': return False
         fns = {}
         for i in fpos:
             if i >= len(args): return False
@@ -128,6 +146,14 @@ class CombinatorOpener:
             fail_through(no)
         elif item == 'and_then':
             self._invoke(rw, yes, fns[1], [okp], dst, after, span); fail_through(no)
+        elif item in ('ok_or', 'ok_or_else'):   # Some(v) => Ok(v), None => Err(e) / Err(f())
+            B[yes]['st'].append(NZ._agg(dst, 'std::result::Result::Ok', [okp], line=line)); rw.goto(yes, after)
+            if item == 'ok_or':
+                B[no]['st'].append(NZ._agg(dst, 'std::result::Result::Err', [args[1]], line=line)); rw.goto(no, after)
+            else:
+                r = rw.new_local('?'); nxt = rw.new_block()
+                self._invoke(rw, no, fns[1], [], NZ._pl(r), nxt, span)
+                B[nxt]['st'].append(NZ._agg(dst, 'std::result::Result::Err', [NZ._mv(r)], line=line)); rw.goto(nxt, after)
         elif item == 'and':             # x.and(y): y (already evaluated) when x is Some / Ok
             B[yes]['st'].append(NZ._use(dst, args[1], line)); rw.goto(yes, after); fail_through(no)
         elif item == 'map_or':
@@ -205,6 +231,13 @@ def _branch_of(t, v):
     return None
 
 
+VARIANT_PRESERVING = re.compile(r'^(?:std|core)::(?:result::Result::<.*>::(?:map_err|map|inspect|inspect_err)|option::Option::<.*>::(?:map|inspect))$')      # Ok stays Ok, Err stays Err
+
+
+def _keeps_variant(t):
+    return bool(VARIANT_PRESERVING.match(T.strip_generics_tail(t.get('r') or t.get('f') or '')))
+
+
 def _whole(o):
     return o['pl']['l'] if o['k'] in ('copy', 'move') and not o['pl']['p'] else None
 
@@ -228,7 +261,7 @@ def _vp_tracked(body):
             if rv['k'] == 'use' and _whole(rv['ops'][0]) in enums: enums.add(d['l']); changed = True
         for c in body.calls:
             if c.dst['p'] or c.dst['l'] in enums or c.dst['l'] in mb: continue
-            if T.TRY_BRANCH.search(c.name) and c.args and _whole(c.args[0]) in enums: enums.add(c.dst['l']); changed = True
+            if (T.TRY_BRANCH.search(c.name) or _keeps_variant(c.term)) and c.args and _whole(c.args[0]) in enums: enums.add(c.dst['l']); changed = True
     discrs = set()
     for bi, st in body.stmts():
         d = st['dst']; rv = st['rv']
@@ -237,14 +270,22 @@ def _vp_tracked(body):
     return body._c08_vp
 
 
-def reach_vp(body, starts, stop=()):
+def reach_vp(body, starts, stop=(), assume=None):
     """forward reachability; a switch on a bool / discriminant whose value is known on this path follows
-    only the matching target.  Over-approximates (falls back to plain reachability when too many states)."""
-    key = (tuple(sorted(starts)), tuple(sorted(stop)))
+    only the matching target.  Over-approximates (falls back to plain reachability when too many states).
+    assume = (local, k): the enum value in `local` (a parameter; also its copies / references) is variant #k."""
+    key = (tuple(sorted(starts)), tuple(sorted(stop)), assume)
     memo = body.__dict__.setdefault('_c08_reach', {})
     if key in memo: return memo[key]
     bools, enums, discrs = _vp_tracked(body)
     tracked = bools | enums | discrs
+    assumed = {}
+    if assume is not None:
+        same = T.copies_of(body, assume[0])
+        for bi, st in body.stmts():
+            rv = st['rv']
+            if rv['k'] == 'discr' and not st['dst']['p'] and rv['pl']['l'] in same and rv['pl']['p'] in ([], ['*']): assumed[id(st)] = ('D', assume[1])
+        tracked = tracked | {st['dst']['l'] for bi, st in body.stmts() if id(st) in assumed}
     if not tracked:
         memo[key] = body.reach(starts, stop); return memo[key]
     seen = set(); out = set(); work = [(s, frozenset()) for s in starts if s not in stop]
@@ -266,6 +307,7 @@ def reach_vp(body, starts, stop=()):
             elif k == 'use' and _whole(o) is not None: v = e.get(_whole(o))
             elif k == 'un' and rv['op'] == 'Not' and _whole(o) is not None and isinstance(e.get(_whole(o)), bool): v = not e[_whole(o)]
             elif k == 'agg': v = _agg_variant(rv['adt'])
+            elif k == 'discr' and id(st) in assumed: v = assumed[id(st)]
             elif k == 'discr' and not rv['pl']['p']:
                 x = e.get(rv['pl']['l'])
                 if isinstance(x, tuple) and x[0] == 'E': v = ('D', x[2])
@@ -280,6 +322,7 @@ def reach_vp(body, starts, stop=()):
                     a0 = _whole(t['args'][0]) if t['args'] else None
                     if T.NOT_CALL.search(t['r'] or t['f']) and isinstance(e.get(a0), bool): v = not e[a0]
                     elif _residual_variant(t): v = _residual_variant(t)
+                    elif a0 is not None and _keeps_variant(t): v = e.get(a0) if isinstance(e.get(a0), tuple) and e.get(a0)[0] == 'E' else None
                     elif a0 is not None: v = _branch_of(t, e.get(a0))
                 if v is None: e.pop(dl, None)
                 else: e[dl] = v
@@ -310,12 +353,14 @@ class Guard:
             if not ts: return dict(ok=False, err=False, blocks=set())
             r = reach_vp(body, sorted(ts))
             return dict(ok=bool(r & oks), err=bool(r & errs), blocks=r)
+        self.t_targets, self.f_targets = tl, fl
         true_bb, false_bb = tl, fl
         self.t = side(true_bb); self.f = side(false_bb)
 
     def inverted(self):
         g = object.__new__(Guard)
         g.body = self.body; g.switch_bb = self.switch_bb; g.true_bb, g.false_bb = self.false_bb, self.true_bb; g.t, g.f = self.f, self.t
+        g.t_targets, g.f_targets = self.f_targets, self.t_targets
         return g
 
     def requires(self, polarity):
@@ -331,6 +376,13 @@ class Guard:
         """blocks reachable on the `polarity` side only"""
         a, b_ = (self.t, self.f) if polarity else (self.f, self.t)
         return a['blocks'] - b_['blocks']
+
+    def only_this_time(self, polarity):
+        """blocks reachable on the `polarity` side and not on the other side before the test is evaluated again
+        (inside a loop the other side comes round to everything)"""
+        a, b_ = (self.t, self.f_targets) if polarity else (self.f, self.t_targets)
+        other = reach_vp(self.body, sorted(b_), stop=(self.switch_bb,)) if b_ else set()
+        return a['blocks'] - other
 
     def describe(self):
         return 'switch bb%d: true->bb%s(ok=%s,err=%s) false->bb%s(ok=%s,err=%s)' % (self.switch_bb, self.true_bb, self.t['ok'], self.t['err'], self.false_bb, self.f['ok'], self.f['err'])
@@ -945,6 +997,10 @@ def error_aggs(ctx, body, blocks, variant, consts):
             have = set()
             for o in rv['ops']: have |= literals_of(body, T.expr(body, o))
             if all(k in have for k in consts): out.append((bi, st))
+        elif bi in blocks and rv['k'] == 'agg' and rv['adt'].endswith('Result::Err') and rv['ops']:
+            # `f.ok_or(E)` written out: E is evaluated before the case split, the None side wraps it
+            for y in T.expr_walk(T.expr(body, rv['ops'][0])):
+                if y[0] == 'agg' and y[1].endswith('RawParseError::' + variant) and all(k in literals_of(body, y) for k in consts): out.append((bi, st)); break
     return out
 
 
@@ -993,28 +1049,24 @@ def enum_parse_rules(ctx):
         b = ctx.method(R + '/%s/anchor' % short(ty), ty, 'parse', trait='Parse')
         adt = ctx.F.adt(ty)
         if b is None or adt is None: continue
-        sw = None
-        for bi in sorted(b.live):
-            t = b.blocks[bi]['term']
-            if t['k'] == 'switch' and t['d']['k'] != 'const':
-                for k2, b2, d in b.defs_of(t['d']['pl']['l']):
-                    if k2 == 'stmt' and d['rv']['k'] == 'discr':
-                        p = place_of(b, d['rv']['pl'])
-                        if p and p[0] == 1 and not p[1]: sw = (bi, t)
-        ctx.check(sw is not None, R + '/%s/match' % short(ty), 'T-TABLE', b.name, 'no match on the enum value', b.site())
-        if sw is None: continue
-        bi, t = sw; m = {v: tg for v, tg in t['ts']}
+        split = any(st['rv']['k'] == 'discr' and st['rv']['pl']['l'] in T.copies_of(b, 1) and st['rv']['pl']['p'] in ([], ['*']) for bi, st in b.stmts())
+        ctx.check(split, R + '/%s/match' % short(ty), 'T-TABLE', b.name, 'no case split on the enum value', b.site())
+        if not split: continue
+        # one row per variant of the message enum, decided by path probing from the ENTRY under the assumption "self is this
+        # variant" (every discriminant read of self is then known; `Some(K)` / `None` arms followed by ok_or / ok_or_else and early
+        # returns before the match are followed path-sensitively): outcome = only Ok-exits / only Err-exits reachable,
+        # value = the one typed variant built on the way / the UnspecifiedEnum error with its literal
         table = {}
-        targets = {m.get(v['discr'], t['else']) for v in adt['variants']}
+        oks = b.strict_ok_exits(); errs = b.err_exits()
         for v in adt['variants']:
-            tg = m.get(v['discr'], t['else'])
-            r = b.reach([tg])
-            for t2 in targets - {tg}: r = r - b.reach([t2])          # blocks of this arm only
+            R_ = reach_vp(b, [0], assume=(1, v['discr']))
             res = None
-            for b2, st in b.stmts():
-                if b2 in r:
-                    if st['rv']['k'] == 'agg' and st['rv']['adt'].startswith(typed + '::'): res = 'ok:' + short(st['rv']['adt'])
-                    if st['rv']['k'] == 'agg' and st['rv']['adt'].endswith('RawParseError::UnspecifiedEnum'):
+            if (R_ & oks) and not (R_ & errs):
+                built = sorted({short(st['rv']['adt']) for b2, st in b.stmts() if b2 in R_ and st['rv']['k'] == 'agg' and st['rv']['adt'].startswith(typed + '::')})
+                res = 'ok:' + (built[0] if len(built) == 1 else '?%s' % built)
+            elif (R_ & errs) and not (R_ & oks):
+                for b2, st in b.stmts():
+                    if b2 in R_ and st['rv']['k'] == 'agg' and st['rv']['adt'].endswith('RawParseError::UnspecifiedEnum'):
                         res = 'err:' + (lit_of(b, st['rv']['ops'][0]) or '?')
             table[v['name']] = res
         want = {v['name']: ('err:' + name if v['name'] == 'Unspecified' else 'ok:' + v['name']) for v in adt['variants']}
@@ -1335,6 +1387,28 @@ def membership_guards(body):
     return out
 
 
+ID_KEY = {'variable': 'decision_variable::VariableID', 'constraint': 'constraint::ConstraintID'}
+
+
+def id_tests(ctx, body, adt, field, kind):
+    """membership tests (see membership_guards) of an id that derives from the message field adt.field in a table keyed by
+    VariableID / ConstraintID.  The helpers as_variable_id / as_constraint_id are written out at their call sites by the
+    module's normal form, so a call of the helper and its body pasted in place are the same thing here."""
+    out = []
+    for g, c in membership_guards(body):
+        if not re.search(r'(HashMap|BTreeMap)::<' + re.escape(ID_KEY[kind]) + r'\b', c.name): continue
+        s = ctx.S.slice_operand(body, c.args[1]); ctx.counters['slices'] += 1
+        if s.has_field(adt, field): out.append((g, c))
+    return out
+
+
+def undefined_error(body, g, kind):
+    """on the `not a key` side RawParseError::Undefined<Kind>ID is built and only Err-exits are reachable"""
+    only = g.only_this_time(False)
+    built = any(bi in only and st['rv']['k'] == 'agg' and st['rv']['adt'].endswith('RawParseError::Undefined%sID' % kind.capitalize()) for bi, st in body.stmts())
+    return built and g.f['err'] and not g.f['ok']
+
+
 def ids_rules(ctx):
     R = 'C08.parse.ids'
     for fn, err in (('as_variable_id', 'UndefinedVariableID'), ('as_constraint_id', 'UndefinedConstraintID')):
@@ -1348,36 +1422,48 @@ def ids_rules(ctx):
         ctx.check(ok and bool(agg), R + '/%s/undefined-is-error' % fn, 'T-GUARD', b.name, 'an id that is not a key of the table is not rejected with %s' % err, b.site())
     b = ctx.method(R + '/Instance/anchor', 'instance::Instance', 'try_from', trait='TryFrom', targs=['v1::Instance'])
     if b is not None:
-        # the key of every entry of decision_variable_dependency goes through as_variable_id and is stored under the checked id
-        av = [c for c in b.calls if c.item == 'as_variable_id' and len(c.args) == 2 and ctx.S.slice_operand(b, c.args[1]).has_field(INST, 'decision_variable_dependency')]
-        ok = False
-        for c in av:
+        # the key of every entry of decision_variable_dependency is a defined variable and the entry is stored under that key
+        tests = id_tests(ctx, b, INST, 'decision_variable_dependency', 'variable')
+        ok = keyed = False; site = b.site()
+        for g, c in tests:
             lo = enclosing_loop(b, c.bb)
             if lo is None or not ctx.S.slice_operand(b, lo[0].args[0]).has_field(INST, 'decision_variable_dependency'): continue
-            ok = T.must_pass(b, lo[2], {lo[1]}, {c.bb}) and all(b.dominates(lo[1], e) for e in b.strict_ok_exits())
-            ins = [x for x in b.calls if x.bb in lo[4] and is_map_insert(x) and c in ctx.S.slice_operand(b, x.args[1]).call_objs]
-            ctx.check(bool(ins), R + '/Instance/dependency-key-is-checked-id', 'T-CARRY', b.name, 'dependency is stored under an unchecked key', b.site(c.bb))
-        ctx.check(ok, R + '/Instance/dependency-keys-checked', 'T-LOOPMUST', b.name, 'dependency keys are not checked against the defined variables', b.site())
-        errflow_calls(ctx, R + '/Instance/dependency-key-error', b, av, 'as_variable_id')
+            site = b.site(c.bb)
+            if g.requires(True) and T.must_pass(b, lo[2], {lo[1]}, {c.bb}) and all(b.dominates(lo[1], e) for e in b.strict_ok_exits()): ok = True
+            k = root_of(b, c.args[1])
+            if any(x.bb in lo[4] and is_map_insert(x) and k in ctx.S.slice_operand(b, x.args[1]).locals for x in b.calls): keyed = True
+        ctx.check(keyed, R + '/Instance/dependency-key-is-checked-id', 'T-CARRY', b.name, 'dependency is stored under an unchecked key', site)
+        ctx.check(ok, R + '/Instance/dependency-keys-checked', 'T-LOOPMUST', b.name, 'dependency keys are not checked against the defined variables', site)
+        ctx.check(any(undefined_error(b, g, 'variable') for g, c in tests), R + '/Instance/dependency-key-error', 'T-ERRFLOW', b.name, 'an undefined dependency key does not end in UndefinedVariableID', site)
     # hints
-    for ty, specs in (('v1::OneHot', [('constraint_id', 'as_constraint_id', False), ('decision_variables', 'as_variable_id', True)]),
-                      ('v1::Sos1', [('binary_constraint_id', 'as_constraint_id', False), ('big_m_constraint_ids', 'as_constraint_id', True), ('decision_variables', 'as_variable_id', True)])):
+    for ty, specs in (('v1::OneHot', [('constraint_id', 'constraint', False), ('decision_variables', 'variable', True)]),
+                      ('v1::Sos1', [('binary_constraint_id', 'constraint', False), ('big_m_constraint_ids', 'constraint', True), ('decision_variables', 'variable', True)])):
         b = ctx.method(R + '/%s/anchor' % short(ty), ty, 'parse', trait='Parse')
         if b is None: continue
-        for field, helper, listy in specs:
-            cs = [c for c in b.calls if c.item == helper and len(c.args) == 2 and (ty, field) in ctx.S.slice_operand(b, c.args[1]).fields]
-            ctx.check(bool(cs), R + '/%s.%s/checked' % (short(ty), field), 'T-MUSTCALL', b.name, '%s is not checked by %s' % (field, helper), b.site())
-            errflow_calls(ctx, R + '/%s.%s/error' % (short(ty), field), b, cs, helper)
-            for c in cs:
-                if listy:
-                    lo = enclosing_loop(b, c.bb)
-                    ctx.check(lo is not None and T.must_pass(b, lo[2], {lo[1]}, {c.bb}) and all(b.dominates(lo[1], e) for e in b.strict_ok_exits()), R + '/%s.%s/every-element' % (short(ty), field), 'T-LOOPMUST', b.name, 'an element can skip the check', b.site(c.bb))
-                    # the checked id is inserted into a set and a repeated id is an error (insert false => Err)
-                    ins = [x for x in b.calls if lo is not None and x.bb in lo[4] and is_set_insert(x) and c in ctx.S.slice_operand(b, x.args[1]).call_objs]
-                    okk = any(g.requires(True) for x in ins for g in guards_of_call(b, x))
-                    ctx.check(okk, R + '/%s.%s/repeated-is-error' % (short(ty), field), 'T-GUARD', b.name, 'a repeated id is accepted', b.site(c.bb))
-                else:
-                    ctx.check(all(b.dominates(c.bb, e) for e in b.strict_ok_exits()), R + '/%s.%s/dominates' % (short(ty), field), 'T-MUSTCALL', b.name, 'check does not dominate the Ok-exit', b.site(c.bb))
+        for field, kind, listy in specs:
+            tests = id_tests(ctx, b, ty, field, kind)
+            good = [(g, c) for g, c in tests if g.requires(True)]
+            site = b.site(good[0][1].bb) if good else (b.site(tests[0][1].bb) if tests else b.site())
+            ctx.check(bool(good), R + '/%s.%s/checked' % (short(ty), field), 'T-GUARD', b.name, '%s is not tested against the defined %ss (an undefined id is accepted)' % (field, kind), site)
+            if tests:
+                ctx.check(any(undefined_error(b, g, kind) for g, c in (good or tests)), R + '/%s.%s/error' % (short(ty), field), 'T-ERRFLOW', b.name, 'an undefined %s does not end in Undefined%sID' % (field, kind.capitalize()), site)
+            if not good: continue
+            if listy:
+                every = rep = False
+                for g, c in good:
+                    lo = collection_loop(ctx, b, c.bb, ty, field)
+                    if lo is None: continue
+                    it = ctx.S.slice_operand(b, lo[0].args[0])
+                    restr = [x.item for x in it.call_objs if x.item in RESTRICTING and 'Iterator' in (x.trait or '')]
+                    if not restr and T.must_pass(b, lo[2], {lo[1]}, {c.bb}) and all(b.dominates(lo[1], e) for e in b.strict_ok_exits()): every = True
+                    # the tested id is inserted into a set and a repeated id is an error (insert false => Err)
+                    k = root_of(b, c.args[1])
+                    ins = [x for x in b.calls if x.bb in lo[4] and is_set_insert(x) and k in ctx.S.slice_operand(b, x.args[1]).locals]
+                    if any(gg.requires(True) for x in ins for gg in guards_of_call(b, x)): rep = True
+                ctx.check(every, R + '/%s.%s/every-element' % (short(ty), field), 'T-LOOPMUST', b.name, 'an element can skip the check', site)
+                ctx.check(rep, R + '/%s.%s/repeated-is-error' % (short(ty), field), 'T-GUARD', b.name, 'a repeated id is accepted', site)
+            else:
+                ctx.check(any(g.dominates_ok_exits() for g, c in good), R + '/%s.%s/dominates' % (short(ty), field), 'T-MUSTCALL', b.name, 'check does not dominate the Ok-exit', site)
     # every hint of the message is parsed and kept: no element of the lists is dropped before / instead of being checked
     b = ctx.method(R + '/ConstraintHints/anchor', 'v1::ConstraintHints', 'parse', trait='Parse')
     if b is not None:
@@ -1453,17 +1539,33 @@ def carry_rules(ctx):
 # =============================================================================================
 # C08.parse.path
 # =============================================================================================
+def success_payload(body, l):
+    """local l is built as Ok(x) / Some(x) on one arm and as Err(..) / None (or a residual) on the others: the operand x"""
+    defs = [d for d in body.defs_of(l) if not (d[0] == 'stmt' and d[2]['dst']['p'])]
+    if len(defs) < 2: return None
+    good = [d for d in defs if d[0] == 'stmt' and d[2]['rv']['k'] == 'agg' and d[2]['rv']['adt'].endswith(('Result::Ok', 'Option::Some')) and len(d[2]['rv']['ops']) == 1]
+    rest = [d for d in defs if d not in good]
+    if len(good) != 1: return None
+    if not all((d[0] == 'stmt' and d[2]['rv']['k'] == 'agg' and d[2]['rv']['adt'].endswith(('Result::Err', 'Option::None'))) or (d[0] == 'call' and _term_item(d[2]) == 'from_residual') for d in rest): return None
+    o = good[0][2]['rv']['ops'][0]
+    return o if o['k'] in ('copy', 'move') else None
+
+
 def receiver_field(ctx, fb, operand, msg_ty):
     """the field (or prost getter) of the message msg_ty whose value `operand` is:
       self.f / self.f.ok_or(..)? / self.f() (getter)                   -- the access path names it
       an element of self.f  (`for x in self.f`, `self.f.into_iter().map(|x| ..)` in normal form)
                                                                         -- the path ends in Iterator::next; the iterator derives from exactly one field
       the payload of a tested Option field (`let Some(x) = self.f else ..`)  -- the path crosses the field"""
-    fs, rootl, calls = T.access_path(fb, operand)
-    named = [f for a, f in fs if a == msg_ty]
-    getter = [short(x) for x in calls if x.startswith(msg_ty + '::')]
-    src = named[:1] or getter[:1]
-    if src: return src
+    for _ in range(4):
+        fs, rootl, calls = T.access_path(fb, operand)
+        named = [f for a, f in fs if a == msg_ty]
+        getter = [short(x) for x in calls if x.startswith(msg_ty + '::')]
+        src = named[:1] or getter[:1]
+        if src: return src
+        nxt = success_payload(fb, rootl) if rootl is not None else None       # `self.f.ok_or(E)?` written out: Ok(payload of f) | Err(E)
+        if nxt is None: break
+        operand = nxt
     p = place_of(fb, operand)                # component of a freshly built tuple: `match (self.f, k) { (Some(x), _) => x.parse_as(..) }`
     if p and [f for a, f in p[1] if a == msg_ty]: return [f for a, f in p[1] if a == msg_ty][:1]
     if calls and re.search(r'Iterator>::next$', calls[-1]) and rootl is not None:
